@@ -75,7 +75,8 @@ PROPS = {
                       'built_in_functor.rs::next_solution_functor', 'built_in_functor.rs::atoms_match',
                       'built_in_join.rs::evaluate_join', 'built_in_join.rs::is_punctuation'],
         'oracles': {'s_linked_list.rs::filter': 'c17_filter', 's_linked_list.rs::count_terms': 'c17_count',
-                    's_linked_list.rs::get_terms': 'c17_terms', 'built_in_join.rs::evaluate_join': 'c17_join', '*': 'c17_filter'},
+                    's_linked_list.rs::get_terms': 'c17_terms', 'built_in_join.rs::evaluate_join': 'c17_join', 'built_in_functor.rs::next_solution_functor': 'c17_functor',
+                    'built_in_functor.rs::atoms_match': 'c17_functor', '*': 'c17_filter'},
         'not_covered': [
             'join: Display of a term is the uninterpreted `disp` (R10: format!("{}", term) wrapped); `String += &str` and atom!(out) are wrapped into external functions (R10)',
             'functor: the prefix test is the uninterpreted str_has_prefix tied to str::starts_with (R11)',
